@@ -11,6 +11,12 @@ Sub-checks
              before and after every call
   subprocess clause A across two fresh interpreters (few cases; slow)
 
+Argument forms: the four sampling utilities are called in every form their docstrings / signatures document (population as
+array of several dtypes or as Integral, size / axis as Integral, tuple or None, with and without probabilities, positional /
+keyword / defaulted arguments).  Some of these forms are rejected by the unchanged library (F-C17-b and relatives, see
+maybe_unsupported): such a call must either raise with the global streams untouched and the same outcome in every execution,
+or -- where a tree accepts it -- behave like any other call under both clauses.
+
 The runner saves / restores the process-global streams around every case, so seeding them here is harmless.
 """
 import json
@@ -80,6 +86,10 @@ ASSUMPTIONS = [
     "large inputs: the world stays 8 taxa x 10 markers; what grows is the size argument of each call (cross tables up to 129 parent "
     "slots in the quick tier and 256 in the thorough tier -- outcross_shuffle is cubic in the number of slots --, up to 400 crosses "
     "per mating call, up to 70001 sampled elements)",
+    "documented argument forms that the unchanged library rejects (tiled_choice with an Integral population or size=None, "
+    "stochastic_universal_sampling with size=None, axis_shuffle with axis=None or with every axis of the array) are part of the "
+    "generated programs: a rejection (any exception; which one is C17's business) is an outcome like any other -- it must be the same "
+    "in both executions and must leave random / numpy.random untouched; an accepted call is held to both clauses",
 ]
 
 NTAXA, NVRNT = 8, 10
@@ -250,8 +260,104 @@ def uses_pymoo(call):
     return False
 
 
+def split_opts(call):
+    """(call without its trailing options dict, options).  The sampling utilities take an optional trailing JSON object that
+    selects the documented *argument form* (how the population / size / axis / probabilities / generator are handed over)."""
+    if call and isinstance(call[-1], dict):
+        return call[:-1], call[-1]
+    return call, {}
+
+
+def _shape_arg(v):
+    """size / axis argument in JSON form -> python value: None, int, or tuple (a JSON list stands for a tuple)"""
+    if v is None:
+        return None
+    if isinstance(v, list):
+        return tuple(int(x) for x in v)
+    return int(v)
+
+
+def _nelem(v):
+    if v is None:
+        return 1
+    if isinstance(v, list):
+        return int(numpy.prod([int(x) for x in v])) if v else 1
+    return int(v)
+
+
+def _axis_shape(call):
+    c, o = split_opts(call)
+    if o.get("shape"):
+        return [int(x) for x in o["shape"]]
+    return [int(c[3]), int(c[4])] if len(c) > 4 else [3, 4]
+
+
+def maybe_unsupported(call):
+    """Input-side signature of the argument forms that the docstrings / signatures of the four sampling utilities document but
+    that the unchanged library rejects (F-C17-b and its relatives: whether they OUGHT to be accepted is property C17's
+    business, not C08's).  C08 holds such a call to: either it raises -- then the global streams are exactly as before and the
+    outcome is the same in every execution -- or it is accepted -- then it is an ordinary call and obeys both clauses."""
+    c, o = split_opts(call)
+    if c[0] == "tiled_choice":
+        return o.get("a", "array") in ("int", "npint") or c[3] is None       # `a` Integral; size=None (the default)
+    if c[0] == "sus":
+        return c[2] is None                                                   # size=None is the signature's default
+    if c[0] == "axis_shuffle":
+        if c[2] is None:                                                      # axis=None is the signature's default
+            return True
+        nd = len(_axis_shape(call))
+        ax = c[2] if isinstance(c[2], list) else [c[2]]
+        return len({int(x) % nd for x in ax}) == nd                           # "axes": every axis of the array at once
+    return False
+
+
+def form_features(call):
+    """input-side description of the argument form of a sampling-utility call (for the label histogram)"""
+    c, o = split_opts(call)
+    f = []
+    if c[0] == "tiled_choice":
+        f += ["a=" + o.get("a", "array")]
+        f += ["size=" + ("None" if c[3] is None else "tuple" if isinstance(c[3], list) else "int")]
+        f += ["p=array"] if o.get("p") is not None else []
+        f += ["dtype=" + o["dtype"]] if o.get("dtype") else []
+    elif c[0] == "sus":
+        f += ["size=" + ("None" if c[2] is None else "tuple" if isinstance(c[2], list) else "int")]
+    elif c[0] == "axis_shuffle":
+        f += ["axis=" + ("None" if c[2] is None else "tuple" if isinstance(c[2], list) else "int")]
+        f += ["ndim=%d" % len(_axis_shape(call))]
+        f += ["negative_axis"] if any(int(x) < 0 for x in (c[2] if isinstance(c[2], list) else [c[2] or 0])) else []
+    elif c[0] != "outcross_shuffle":
+        return []
+    f += ["conv=" + o["conv"]] if o.get("conv") else []
+    return ["form:%s:%s" % (c[0], x) for x in f]
+
+
+def _invoke(fn, names, values, conv):
+    """call fn with the arguments handed over positionally ("pos", default), all by keyword ("kw"), or by keyword with the
+    None-valued optional ones left out so that the signature's defaults apply ("omit")"""
+    if conv == "kw":
+        return fn(**dict(zip(names, values)))
+    if conv == "omit":
+        return fn(**{k: v for k, v in zip(names, values) if v is not None or k in ("a", "xconfig")})
+    return fn(*values)
+
+
 def run_call(w, call):
-    """Execute one call descriptor; returns a canonical (JSON-able) output."""
+    """Execute one call descriptor; returns a canonical (JSON-able) output.  A call in a documented-but-possibly-unsupported
+    argument form (see maybe_unsupported) may raise: the outcome is then {"raised": <exception type>}."""
+    if maybe_unsupported(call):
+        try:
+            return _run_call(w, call)
+        except Exception as e:                    # noqa: BLE001 -- which exception is C17's business
+            return {"raised": type(e).__name__}
+    return _run_call(w, call)
+
+
+def was_rejected(out):
+    return isinstance(out, dict) and set(out) == {"raised"}
+
+
+def _run_call(w, call):
     op = call[0]
     pg = w["pg"]
     if op == "mate":
@@ -278,19 +384,42 @@ def run_call(w, call):
             pt = pt.deepcopy()
         return canon(pt.phenotype(pg))
     if op == "sus":
-        _, spec, k, wts = call
+        c, o = split_opts(call)
+        _, spec, k, wts = c
         p = numpy.array([float(1 + (v % 5)) for v in expand(wts)], dtype=float)
-        return canon(sampling.stochastic_universal_sampling(numpy.arange(len(p)), p, int(k), rng=make_rng(spec)))
+        return canon(_invoke(sampling.stochastic_universal_sampling, ("a", "p", "size", "rng"),
+                             (numpy.arange(len(p)), p, _shape_arg(k), make_rng(spec)), o.get("conv", "kw")))
     if op == "tiled_choice":
-        _, spec, na, size, replace = call
-        return canon(sampling.tiled_choice(numpy.arange(int(na)) * 3, int(size), bool(replace), None, make_rng(spec)))
+        c, o = split_opts(call)
+        _, spec, na, size, replace = c
+        na = int(na)
+        form = o.get("a", "array")
+        if form == "int":
+            a = na                                          # documented: "as if it were np.arange(a)"
+        elif form == "npint":
+            a = numpy.int64(na)
+        else:
+            dt = o.get("dtype", "int64")
+            a = numpy.arange(na) * 3
+            if dt in ("str", "object"):
+                a = numpy.array(["e%d" % v for v in a], dtype=(object if dt == "object" else None))
+            else:
+                a = a.astype(dt)
+        p = None
+        if o.get("p") is not None:                          # strictly positive probabilities summing to one
+            wt = numpy.array([1.0 + ((int(o["p"]) + 1) * (i + 1)) % 5 for i in range(na)])
+            p = wt / wt.sum()
+        return canon(_invoke(sampling.tiled_choice, ("a", "size", "replace", "p", "rng"),
+                             (a, _shape_arg(size), bool(replace), p, make_rng(spec)), o.get("conv", "pos")))
     if op == "axis_shuffle":
-        _, spec, axis = call[:3]
-        nrow, ncol = (int(call[3]), int(call[4])) if len(call) > 3 else (3, 4)
-        a = numpy.arange(nrow * ncol).reshape(nrow, ncol)
-        sampling.axis_shuffle(a, int(axis), make_rng(spec))
+        c, o = split_opts(call)
+        _, spec, axis = c[:3]
+        shape = _axis_shape(call)
+        a = numpy.arange(int(numpy.prod(shape))).reshape(shape)
+        _invoke(sampling.axis_shuffle, ("a", "axis", "rng"), (a, _shape_arg(axis), make_rng(spec)), o.get("conv", "pos"))
         return canon(a)
     if op == "outcross_shuffle":
+        call, o = split_opts(call)
         _, spec, vals, ncol = call[:4]
         mod = int(call[4]) if len(call) > 4 else 4          # number of distinct parents in the table
         vals = expand(vals)
@@ -298,7 +427,7 @@ def run_call(w, call):
         nrow = max(1, len(vals) // ncol)
         v = (list(vals) + [0] * (nrow * ncol))[: nrow * ncol]
         a = numpy.array([x % mod for x in v], dtype="int64").reshape(nrow, ncol)
-        sampling.outcross_shuffle(a, make_rng(spec))
+        _invoke(sampling.outcross_shuffle, ("xconfig", "rng"), (a, make_rng(spec)), o.get("conv", "pos"))
         return canon(a)
     if op == "xconfig":
         _, kind, spec, ncross, nparent, nresample = call[:6]
@@ -434,7 +563,21 @@ def label_program(ctx, program):
     ctx.label("cross_table>=64_slots", any(c[0] in ("outcross_shuffle", "xconfig") and table_slots(c) >= 64 for c in program))
     ctx.label("cross_table>=128_slots", any(c[0] in ("outcross_shuffle", "xconfig") and table_slots(c) >= 128 for c in program))
     ctx.label("call_size>=1000", big >= 1000)
+    for c in program:
+        for f in form_features(c):
+            ctx.label(f)
+    ctx.label("form:maybe_unsupported", any(maybe_unsupported(c) for c in program))
+    ctx.label("form:maybe_unsupported+explicit_rng", any(maybe_unsupported(c) and _spec_of(c) not in (None, "global") for c in program))
+    ctx.label("form:maybe_unsupported+large", any(maybe_unsupported(c) and table_slots(c) >= 1000 for c in program))
     return comps
+
+
+def label_outcomes(ctx, program, outs):
+    """outcome-side classification only (never used as a signature): how the documented-but-possibly-unsupported forms ended"""
+    for c, o in zip(program, outs):
+        if maybe_unsupported(c):
+            ctx.label("unsupported_form_rejected:%s" % c[0], was_rejected(o))
+            ctx.label("unsupported_form_accepted:%s" % c[0], not was_rejected(o))
 
 
 def _spec_of(call):
@@ -467,6 +610,7 @@ def check_reseed(case, ctx):
         outs.append(run_program(P, resync, s))
         finals.append([float.hex(py_random.random()), float.hex(float(numpy.random.random()))])
 
+    label_outcomes(ctx, P, outs[0])
     for i, call in enumerate(P):
         if known_a[i]:
             continue                       # F-C08-a: output of a pymoo-based optimiser is not reproducible
@@ -586,6 +730,7 @@ def check_isolation(case, ctx):
                 # keep the two runs' global streams in a defined state behind the known defect
                 prng.seed((g + 31 * (i + 1)) % 2**32)
         outs.append(o)
+    label_outcomes(ctx, P, outs[0])
     for i, call in enumerate(P):
         if "out" in known[i]:
             continue
@@ -662,6 +807,55 @@ def rngspec(explicit):
     return st.one_of(st.just(["global"]), st.just(["global"]), ex)
 
 
+_conv = st.sampled_from([None, None, "pos", "kw", "omit"])
+
+
+def _with_opts(call, o):
+    o = {k: v for k, v in o.items() if v is not None}
+    return call + [o] if o else call
+
+
+@st.composite
+def tiled_choice_call(draw, spec):
+    """every documented form of tiled_choice's arguments: population as array (several dtypes) or Integral, size as Integral /
+    tuple / None, with and without probabilities, any calling convention"""
+    size = draw(st.one_of(st.integers(1, 9), st.integers(1, 9), st.lists(st.integers(1, 4), min_size=1, max_size=3), st.none()))
+    a = draw(st.sampled_from([None, None, None, "int", "int", "npint"]))
+    o = {"a": a, "dtype": None if a else draw(st.sampled_from([None, None, "float64", "int8", "str", "object"])),
+         "p": draw(st.one_of(st.none(), st.none(), st.integers(0, 50))), "conv": draw(_conv)}
+    return _with_opts(["tiled_choice", draw(spec), draw(st.integers(2, 5)), size, draw(st.booleans())], o)
+
+
+@st.composite
+def sus_call(draw, spec):
+    size = draw(st.one_of(st.integers(1, 6), st.integers(1, 6), st.lists(st.integers(1, 3), min_size=1, max_size=3), st.none()))
+    return _with_opts(["sus", draw(spec), size, draw(st.lists(st.integers(0, 50), min_size=2, max_size=6))], {"conv": draw(_conv)})
+
+
+@st.composite
+def axis_shuffle_call(draw, spec):
+    """axis as Integral (also negative) / tuple of distinct axes / None, on 1-D ... 3-D arrays"""
+    shape = draw(st.sampled_from([None, None, [3, 4], [6], [2, 3, 4], [5, 1], [2, 2, 3]]))
+    nd = 2 if shape is None else len(shape)
+    kind = draw(st.sampled_from(["int", "int", "tuple", "tuple", "none"]))
+    neg = draw(st.booleans())
+    if kind == "none":
+        axis = None
+    elif kind == "int":
+        axis = draw(st.integers(0, nd - 1)) - (nd if neg else 0)
+    else:
+        axes = draw(st.lists(st.integers(0, nd - 1), min_size=1, max_size=nd, unique=True))
+        axis = [x - (nd if neg else 0) for x in axes]
+    return _with_opts(["axis_shuffle", draw(spec), axis], {"shape": shape, "conv": draw(_conv)})
+
+
+@st.composite
+def outcross_shuffle_call(draw, spec):
+    call = ["outcross_shuffle", draw(spec), draw(st.lists(st.integers(0, 50), min_size=2, max_size=8)), draw(st.integers(1, 3))]
+    conv = draw(_conv)
+    return call + [4, {"conv": conv}] if conv else call
+
+
 def call_strategy(explicit, with_pymoo=True, only_rng_components=False):
     spec = rngspec(explicit)
     ints = st.integers(0, 50)
@@ -670,10 +864,7 @@ def call_strategy(explicit, with_pymoo=True, only_rng_components=False):
                   st.integers(1, 2), st.integers(1, 3), st.integers(0, 1)),
         st.tuples(st.just("pheno"), spec, st.integers(1, 2), st.integers(1, 2), st.sampled_from([1, 2]),
                   st.sampled_from([1.0, 0.25, 4.0]), st.sampled_from(["direct", "direct", "copy", "deepcopy", "deepcopy_method"])),
-        st.tuples(st.just("sus"), spec, st.integers(1, 6), st.lists(ints, min_size=2, max_size=6)),
-        st.tuples(st.just("tiled_choice"), spec, st.integers(2, 5), st.integers(1, 9), st.booleans()),
-        st.tuples(st.just("axis_shuffle"), spec, st.integers(0, 1)),
-        st.tuples(st.just("outcross_shuffle"), spec, st.lists(ints, min_size=2, max_size=8), st.integers(1, 3)),
+        sus_call(spec), tiled_choice_call(spec), axis_shuffle_call(spec), outcross_shuffle_call(spec),
         st.tuples(st.just("xconfig"), st.sampled_from(sorted(CFG)), spec, st.integers(1, 3), st.integers(1, 3),
                   st.integers(0, 2)),
         st.tuples(st.just("opt"), st.sampled_from(PLAIN_OPT), spec, st.integers(1, 3), st.sampled_from([4, 6, 8])),
@@ -697,6 +888,8 @@ def call_strategy(explicit, with_pymoo=True, only_rng_components=False):
             st.tuples(st.just("jitter")),
             st.tuples(st.just("embv"), st.integers(1, 3), st.integers(1, 2), st.sampled_from([1, 2])),
         ]
+    if only_rng_components:
+        calls += [tiled_choice_call(spec)]         # the utility with the most argument forms gets a second share
     return st.one_of(calls).map(list)
 
 
@@ -741,6 +934,40 @@ def subprocess_case(draw):
     return {"program": program, "prefix1": pre1, "prefix2": pre2, "seed": draw(_seed)}
 
 
+def sampling_forms(spec):
+    """one call per documented argument form of the four sampling utilities (docstrings + signatures of
+    pybrops.core.random.sampling), including the forms the unchanged library rejects"""
+    out = []
+    # tiled_choice: a ndarray | Integral; size Integral | tuple | None; replace; p ndarray | None
+    for replace in (False, True):
+        out += [["tiled_choice", spec, 7, [5, 4], replace, {"a": "int"}],
+                ["tiled_choice", spec, 7, 20, replace, {"a": "int", "conv": "kw"}],
+                ["tiled_choice", spec, 4, [3, 3], replace, {"a": "npint", "p": 2}],
+                ["tiled_choice", spec, 5, None, replace],
+                ["tiled_choice", spec, 5, None, replace, {"conv": "omit"}],
+                ["tiled_choice", spec, 5, None, replace, {"a": "int", "conv": "omit"}],
+                ["tiled_choice", spec, 5, [3, 2, 2], replace],
+                ["tiled_choice", spec, 5, [7], replace, {"p": 3}],
+                ["tiled_choice", spec, 5, 12, replace, {"p": 1, "conv": "kw"}],
+                ["tiled_choice", spec, 3, 7, replace, {"conv": "omit"}]]
+    out += [["tiled_choice", spec, 4, 9, False, {"dtype": d}] for d in ("float64", "int8", "str", "object")]
+    # stochastic_universal_sampling: size Integral | tuple | (signature default) None
+    out += [["sus", spec, None, [1, 2, 3, 4]], ["sus", spec, None, [1, 2, 3, 4], {"conv": "omit"}],
+            ["sus", spec, [2, 3], [1, 2, 3, 4]], ["sus", spec, [2, 1, 2], [4, 4, 1], {"conv": "pos"}],
+            ["sus", spec, 5, [1, 2, 3], {"conv": "pos"}]]
+    # axis_shuffle: axis Integral | tuple | (signature default) None, arrays of 1-3 dimensions
+    out += [["axis_shuffle", spec, None], ["axis_shuffle", spec, None, {"conv": "omit"}],
+            ["axis_shuffle", spec, [0, 1]], ["axis_shuffle", spec, 0, {"shape": [6]}],
+            ["axis_shuffle", spec, [0]], ["axis_shuffle", spec, [1], {"conv": "kw"}], ["axis_shuffle", spec, -1],
+            ["axis_shuffle", spec, [-2]], ["axis_shuffle", spec, [0, 2], {"shape": [2, 3, 4]}],
+            ["axis_shuffle", spec, 1, {"shape": [2, 3, 4]}], ["axis_shuffle", spec, [2, 1], {"shape": [2, 3, 4], "conv": "kw"}],
+            ["axis_shuffle", spec, [0, 1, 2], {"shape": [2, 3, 4]}]]
+    # outcross_shuffle: one table form; both calling conventions, a single cross and single-parent crosses
+    out += [["outcross_shuffle", spec, [1, 1, 2, 2, 3, 3], 2, 4, {"conv": "kw"}], ["outcross_shuffle", spec, [1, 1, 2, 2], 4],
+            ["outcross_shuffle", spec, [1, 1, 2, 2], 1]]
+    return out
+
+
 def _every_call(spec):
     """one representative call per component class (finite enumeration: guarantees every class is exercised)"""
     out = [["mate", m[0], spec, [1, 2, 3, 4, 5, 6, 7, 0], 1, 2, 1] for m in MATE]
@@ -748,6 +975,7 @@ def _every_call(spec):
             ["pheno", spec, 2, 1, 1, 1.0, "deepcopy"], ["pheno", spec, 1, 2, 2, 1.0, "deepcopy_method"], ["sus", spec, 4, [1, 2, 3, 4]],
             ["tiled_choice", spec, 3, 7, False], ["tiled_choice", spec, 3, 7, True], ["axis_shuffle", spec, 0],
             ["axis_shuffle", spec, 1], ["outcross_shuffle", spec, [1, 1, 2, 2, 3, 3], 2]]
+    out += sampling_forms(spec)
     out += [["xconfig", k, spec, 3, 2, 2] for k in sorted(CFG)]
     out += [["opt", k, spec, 2, 6] for k in sorted(OPT)]
     out += [["legacy_opt", k, spec, 2] for k in LEGACY_OPT]
@@ -775,6 +1003,8 @@ def each_reseed_cases(tier):
 def table_slots(call):
     """number of parent slots / elements handled by one call (input-side size measure)"""
     op = call[0]
+    orig = call
+    call = split_opts(call)[0]
     if op == "outcross_shuffle":
         v = call[2]
         return int(v[1]) if v and v[0] == "rand" else len(v)
@@ -784,11 +1014,11 @@ def table_slots(call):
         v = call[3]
         return int(v[1]) if v and v[0] == "rand" else len(v)
     if op == "tiled_choice":
-        return int(call[3])
+        return _nelem(call[3])
     if op == "sus":
-        return int(call[2])
+        return _nelem(call[2])
     if op == "axis_shuffle":
-        return int(call[3]) * int(call[4]) if len(call) > 3 else 12
+        return int(numpy.prod(_axis_shape(orig)))
     return 0
 
 
@@ -816,6 +1046,13 @@ def _large_cheap(spec):
             ["sus", spec, 6007, ["rand", 900, 11]], ["sus", spec, 40, ["rand", 12001, 12]],
             ["axis_shuffle", spec, 0, 700, 33], ["axis_shuffle", spec, 1, 41, 1200],
             ["pheno", spec, 12, 9, 2, 1.0], ["pheno", spec, 30, 1, 1, 0.25, "deepcopy"]]
+    # the other documented argument forms at large sizes (incl. the ones the unchanged library rejects)
+    out += [["tiled_choice", spec, 700, [71, 83], False, {"a": "int"}], ["tiled_choice", spec, 300, [260, 270], True, {"a": "int", "p": 3}],
+            ["tiled_choice", spec, 9000, 20011, False, {"a": "npint", "conv": "kw"}], ["tiled_choice", spec, 12000, None, False],
+            ["tiled_choice", spec, 700, [41, 11, 13], False, {"p": 5, "dtype": "float64"}],
+            ["sus", spec, [77, 78], ["rand", 900, 13]], ["sus", spec, None, ["rand", 12001, 14]],
+            ["axis_shuffle", spec, [0, 2], {"shape": [30, 20, 40]}], ["axis_shuffle", spec, None, {"shape": [700, 33]}],
+            ["axis_shuffle", spec, 0, {"shape": [20000]}]]
     return out
 
 
@@ -867,11 +1104,16 @@ def large_call(draw, explicit):
         return ["mate", name, spec, ["rand", npar * draw(st.integers(30, 400)), draw(small)], draw(st.integers(1, 3)),
                 draw(st.integers(1, 6)), draw(st.integers(0, 1))]
     if kind == "tiled_choice":
-        return ["tiled_choice", spec, draw(st.sampled_from([3, 64, 1000, 4096, 20000])),
-                draw(st.sampled_from([999, 4096, 5001, 10007, 65537])), draw(st.booleans())]
+        size = draw(st.sampled_from([999, 4096, 5001, 10007, 65537, [64, 64], [3, 1667], [17, 19, 23]]))
+        a = draw(st.sampled_from([None, None, "int", "npint"]))
+        return _with_opts(["tiled_choice", spec, draw(st.sampled_from([3, 64, 1000, 4096, 20000])), size, draw(st.booleans())],
+                          {"a": a, "p": draw(st.sampled_from([None, None, 4])), "conv": draw(_conv)})
     if kind == "sus":
-        return ["sus", spec, draw(st.sampled_from([257, 1000, 5003, 20000])),
-                ["rand", draw(st.sampled_from([2, 100, 1025, 9000])), draw(small)]]
+        return _with_opts(["sus", spec, draw(st.sampled_from([257, 1000, 5003, 20000, [40, 50], None])),
+                           ["rand", draw(st.sampled_from([2, 100, 1025, 9000])), draw(small)]], {"conv": draw(_conv)})
+    if draw(st.booleans()):
+        return _with_opts(["axis_shuffle", spec, draw(st.sampled_from([[0, 2], [1], 2, -3, None, [0, 1, 2]]))],
+                          {"shape": draw(st.sampled_from([[30, 20, 40], [2, 513, 9], [1025, 3, 2]])), "conv": draw(_conv)})
     return ["axis_shuffle", spec, draw(st.integers(0, 1)), draw(st.sampled_from([1, 40, 1025])),
             draw(st.sampled_from([2, 300, 513]))]
 
@@ -907,7 +1149,8 @@ SUBCHECKS = [
                   "selection-configuration classes, 150 crosses through the four mate-configuration classes, 120 crosses x 2 matings "
                   "x 3 progeny through every mating protocol, tiled_choice / stochastic_universal_sampling / axis_shuffle on "
                   "10^3-10^4.8 elements, 12 environments x 9 replicates; non-trivial = global seeds differ (always)",
-             required_labels=("cross_table>=128_slots", "call_size>=1000", "rng_generator", "rng_randomstate")),
+             required_labels=("cross_table>=128_slots", "call_size>=1000", "rng_generator", "rng_randomstate",
+                              "form:maybe_unsupported+large")),
     SubCheck("each_large_reseed", check_reseed, cases=large_reseed_cases, shards_quick=4, shards_thorough=7,
              rule="the same large inputs with rng=None after prng.seed(s), behind two different histories",
              required_labels=("cross_table>=128_slots", "call_size>=1000")),
@@ -922,8 +1165,13 @@ SUBCHECKS = [
                   "incl. 0 and 2^32-1, followed by a raw numpy draw, behind two different histories; non-trivial = two "
                   "component kinds and differing prefixes (always)"),
     SubCheck("each_isolation", check_isolation, cases=each_isolation_cases, shards_quick=2, shards_thorough=4,
-             rule="finite enumeration: one representative call of every rng-accepting component class x {Generator, RandomState}; "
-                  "non-trivial = global seeds differ (always)"),
+             rule="finite enumeration: one representative call of every rng-accepting component class and one call per documented "
+                  "argument form of the four sampling utilities (44 forms: population array / Integral, size and axis Integral / tuple / "
+                  "None, probabilities, dtypes, positional / keyword / defaulted arguments; rejected forms must leave the global streams "
+                  "untouched) x {Generator, RandomState}; non-trivial = global seeds differ (always)",
+             required_labels=("form:tiled_choice:a=int", "form:tiled_choice:size=None", "form:tiled_choice:size=tuple",
+                              "form:tiled_choice:p=array", "form:sus:size=None", "form:sus:size=tuple", "form:axis_shuffle:axis=None",
+                              "form:axis_shuffle:axis=tuple", "form:maybe_unsupported+explicit_rng")),
 
     SubCheck("reseed", check_reseed, reseed_case(), quick=200, thorough=600, shards_quick=4, shards_thorough=16,
              rule="generated programs of 1-8 stochastic calls (7 mating protocols, G_E_Phenotyping, 4 sampling utilities, "
@@ -938,7 +1186,7 @@ SUBCHECKS = [
                   "default_rng(k)/RandomState(k), executed under two different global seeds; global random / numpy.random "
                   "states compared byte-for-byte around every call; non-trivial = the two global seeds differ",
              required_labels=("has:mate", "has:pheno", "has:xconfig", "has:opt", "has:select", "rng_generator",
-                              "rng_randomstate")),
+                              "rng_randomstate", "form:tiled_choice:a=int", "form:maybe_unsupported+explicit_rng")),
     SubCheck("each_persistent", check_persistent, cases=persistent_cases, shards_quick=2, shards_thorough=4,
              rule="finite enumeration: every long-lived component kind (7 mating protocols, G_E_Phenotyping and its copy()/deepcopy() "
                   "forms, hill-climber, selection protocol), created with rng=None before prng.seed(s), used twice after it, behind two histories"),
